@@ -265,6 +265,16 @@ func DeepCopy(v Value, memo map[interface{}]Value) Value {
 			r.Cells[k] = DeepCopy(c, memo).(*Loc)
 		}
 		return r
+	case *LocalMat:
+		if r, ok := memo[t]; ok {
+			return r
+		}
+		r := &LocalMat{Rows: t.Rows, Cols: t.Cols, Cells: map[string]*Loc{}}
+		memo[t] = r
+		for k, c := range t.Cells {
+			r.Cells[k] = DeepCopy(c, memo).(*Loc)
+		}
+		return r
 	}
 	return v
 }
@@ -385,6 +395,26 @@ func (it *Interp) structMethod(recv *StructVal, fn *types.Func, call *ast.CallEx
 	}
 	fd, info := it.cfg.Decl(target)
 	if fd == nil || fd.Body == nil {
+		// promoted from an embedded field that holds a modelled value (HmmProbabilityVector{Vector: <local vector>, ...})
+		if _, index, _ := types.LookupFieldOrMethod(types.NewPointer(derefType(recv.T)), true, fn.Pkg(), name); len(index) > 1 {
+			var cur Value = recv
+			for _, ix := range index[:len(index)-1] {
+				sv, ok := cur.(*StructVal)
+				if !ok {
+					break
+				}
+				st := structOf(sv.T)
+				if st == nil || ix >= st.NumFields() {
+					break
+				}
+				cur = it.field(sv, st.Field(ix).Name(), call.Pos())
+			}
+			if cur != Value(recv) {
+				if _, isStruct := cur.(*StructVal); !isStruct {
+					return it.methodOn(cur, fn, call)
+				}
+			}
+		}
 		it.undecided(call.Pos(), "no body for method %s", name)
 	}
 	var args []Value
